@@ -1513,6 +1513,237 @@ fn head(x: &X) -> X {
     }
 }
 
+// -------------------------------------------------------------------------------------------
+// streams the client resets, with the frames under the harness's control
+// -------------------------------------------------------------------------------------------
+/// HPACK integer with a `prefix`-bit prefix (RFC 7541 5.1), `first` = the bits above the prefix
+fn hpack_int(out: &mut Vec<u8>, first: u8, prefix: u8, mut n: usize) {
+    let max = (1usize << prefix) - 1;
+    if n < max {
+        out.push(first | n as u8);
+        return;
+    }
+    out.push(first | max as u8);
+    n -= max;
+    while n >= 128 {
+        out.push((n % 128) as u8 | 0x80);
+        n /= 128;
+    }
+    out.push(n as u8);
+}
+fn hpack_str(out: &mut Vec<u8>, s: &[u8]) {
+    hpack_int(out, 0, 7, s.len()); // no Huffman coding
+    out.extend_from_slice(s);
+}
+/// the header block of a request: literal fields without indexing (names of the pseudo-headers from the static table)
+fn hpack_request(r: &Req) -> Vec<u8> {
+    let mut b = Vec::new();
+    for (idx, v) in [(2usize, &r.method[..]), (7, b"https"), (1, b"localhost:8443"), (4, &r.target[..])] {
+        hpack_int(&mut b, 0, 4, idx);
+        hpack_str(&mut b, v);
+    }
+    for (n, v) in r.headers.iter().filter(|(n, _)| n != LATE) {
+        b.push(0);
+        hpack_str(&mut b, n);
+        hpack_str(&mut b, v);
+    }
+    b
+}
+fn h2_frame(out: &mut Vec<u8>, ty: u8, flags: u8, sid: u32, payload: &[u8]) {
+    out.extend_from_slice(&(payload.len() as u32).to_be_bytes()[1..]);
+    out.push(ty);
+    out.push(flags);
+    out.extend_from_slice(&sid.to_be_bytes());
+    out.extend_from_slice(payload);
+}
+/// `:status` of a response header block as h2 writes it: first field; indexed (200, 204, 206, 304, 400, 404, 500) or a literal
+/// with the name index 8 .. 14.  0 = not understood.
+fn hpack_status(mut b: &[u8]) -> u16 {
+    while let Some(&c) = b.first() {
+        if c & 0xE0 == 0x20 {
+            b = &b[1..]; // dynamic table size update
+        } else {
+            break;
+        }
+    }
+    let Some(&c) = b.first() else { return 0 };
+    if c & 0x80 != 0 {
+        return match c & 0x7F {
+            8 => 200,
+            9 => 204,
+            10 => 206,
+            11 => 304,
+            12 => 400,
+            13 => 404,
+            14 => 500,
+            _ => 0,
+        };
+    }
+    // literal: 01xxxxxx (incremental indexing, 6-bit index), 0000xxxx / 0001xxxx (4-bit index)
+    let idx = if c & 0x40 != 0 { c & 0x3F } else { c & 0x0F };
+    if !(8..=14).contains(&idx) || b.len() < 5 {
+        return 0;
+    }
+    if b[1] == 3 {
+        return std::str::from_utf8(&b[2..5]).ok().and_then(|s| s.parse().ok()).unwrap_or(0);
+    }
+    if b[1] != 0x83 {
+        return 0;
+    }
+    // three digits in the Huffman code of RFC 7541: '0'..'2' = 00000..00010 (5 bits), '3'..'9' = 011001..011111 (6 bits)
+    let bits = u32::from_be_bytes([0, b[2], b[3], b[4]]);
+    let (mut pos, mut st) = (24u32, 0u16);
+    for _ in 0..3 {
+        if pos < 6 {
+            return 0;
+        }
+        let five = (bits >> (pos - 5)) & 0x1F;
+        if five <= 2 {
+            st = st * 10 + five as u16;
+            pos -= 5;
+        } else {
+            let six = (bits >> (pos - 6)) & 0x3F;
+            if !(0x19..=0x1F).contains(&six) {
+                return 0;
+            }
+            st = st * 10 + (six - 0x19 + 3) as u16;
+            pos -= 6;
+        }
+    }
+    st
+}
+
+/// "proto.rst": (L cfg (L request ...) (L reset_index ...) (L (L limited status) ...)) -> (L (L (L sid status) ...) alive)
+/// A fresh HTTP/2 connection (TLS, ALPN h2) written by hand: the client preface, SETTINGS, one HEADERS frame (END_STREAM) per
+/// request - stream ids 1, 3, 5, ... - and RST_STREAM(CANCEL) for the streams named, ALL IN ONE WRITE (one TLS record): the server's
+/// h2 reads the requests and the resets in the same poll, so `accept` hands kvarn streams the client has already reset -
+/// which otherwise happens only when a reset overtakes kvarn's accept loop.  The client then reads frames until every stream
+/// it did not reset has been answered completely (END_STREAM), and checks with a PING that the connection is still served.
+/// Output: the streams (not reset by the client) that were answered, with their status, in stream order; alive = 1 / 0 = the
+/// connection ended (or GOAWAY) before that.  A time-out is harness trouble, never an outcome.
+fn rst_once(x: &X) -> X {
+    // (a fourth element - the limiter's verdict and the page's status per request - is for the model only)
+    let Some([cfg, reqs, resets, ..]) = x.as_l() else { return X::bad() };
+    let (Some(reqs), Some(resets)) = (parse_reqs(reqs), resets.as_l()) else { return X::bad() };
+    let resets: Vec<usize> = resets.iter().filter_map(|r| r.as_n().map(|n| n as usize)).collect();
+    if !reqs.iter().all(|r| expressible(r) && r.body.is_empty()) || reqs.len() > 1000 {
+        return X::L(vec![X::N(96)]);
+    }
+    let Some(b) = build(cfg) else { return X::bad() };
+    let desc = descriptor(&b, true);
+    let out = rt().block_on(async move {
+        let mut s = match connect_tls(desc.into(), tls().client_h2.clone(), b"h2").await {
+            Ok(s) => s,
+            Err(e) => return fail(0, format!("open: h2 (raw): {e}")),
+        };
+        let mut out = b"PRI * HTTP/2.0\r\n\r\nSM\r\n\r\n".to_vec();
+        // SETTINGS_HEADER_TABLE_SIZE = 0: the server's HPACK encoder uses no dynamic table, every `:status` is the static index
+        // or a literal (`hpack_status` needs no decoder state)
+        h2_frame(&mut out, 4, 0, 0, &[0, 1, 0, 0, 0, 0]);
+        for (i, r) in reqs.iter().enumerate() {
+            h2_frame(&mut out, 1, 0x5, 2 * i as u32 + 1, &hpack_request(&resolve(r)));
+        }
+        for &i in &resets {
+            h2_frame(&mut out, 3, 0, 2 * i as u32 + 1, &8u32.to_be_bytes());
+        }
+        if s.write_all(&out).await.is_err() || s.flush().await.is_err() {
+            return fail(0, "open: h2 (raw): write".into());
+        }
+        let want: Vec<u32> = (0..reqs.len()).filter(|i| !resets.contains(i)).map(|i| 2 * i as u32 + 1).collect();
+        let mut status: std::collections::BTreeMap<u32, u16> = Default::default();
+        let mut ended: std::collections::BTreeSet<u32> = Default::default();
+        let mut buf: Vec<u8> = Vec::new();
+        let mut alive = true;
+        let mut pinged = false;
+        let deadline = tokio::time::Instant::now() + T;
+        'conn: loop {
+            if !pinged && want.iter().all(|sid| ended.contains(sid)) {
+                let mut ping = Vec::new();
+                h2_frame(&mut ping, 6, 0, 0, b"c20-ping");
+                if s.write_all(&ping).await.is_err() || s.flush().await.is_err() {
+                    alive = false;
+                    break;
+                }
+                pinged = true;
+            }
+            // one frame
+            while buf.len() < 9 || buf.len() < 9 + u32::from_be_bytes([0, buf[0], buf[1], buf[2]]) as usize {
+                let mut tmp = [0u8; 16384];
+                match tokio::time::timeout_at(deadline, s.read(&mut tmp)).await {
+                    Err(_) => return fail(0, timed_out("h2 (raw) frames")),
+                    Ok(Ok(0)) | Ok(Err(_)) => {
+                        alive = false;
+                        break 'conn;
+                    }
+                    Ok(Ok(n)) => buf.extend_from_slice(&tmp[..n]),
+                }
+            }
+            let len = u32::from_be_bytes([0, buf[0], buf[1], buf[2]]) as usize;
+            let (ty, flags) = (buf[3], buf[4]);
+            let sid = u32::from_be_bytes([buf[5] & 0x7F, buf[6], buf[7], buf[8]]);
+            let payload: Vec<u8> = buf[9..9 + len].to_vec();
+            buf.drain(..9 + len);
+            match ty {
+                // DATA / HEADERS: END_STREAM = 0x1
+                0 | 1 => {
+                    if ty == 1 {
+                        // (no padding, no priority in what h2 sends)
+                        status.entry(sid).or_insert_with(|| hpack_status(&payload));
+                    }
+                    if flags & 0x1 != 0 {
+                        ended.insert(sid);
+                    }
+                }
+                // RST_STREAM from the server: that stream is over, unanswered unless it had ended
+                3 => {}
+                // SETTINGS: acknowledge
+                4 if flags & 0x1 == 0 => {
+                    let mut ack = Vec::new();
+                    h2_frame(&mut ack, 4, 0x1, 0, &[]);
+                    if s.write_all(&ack).await.is_err() || s.flush().await.is_err() {
+                        alive = false;
+                        break;
+                    }
+                }
+                // PING ack: the connection is served
+                6 if flags & 0x1 != 0 && pinged => break,
+                // GOAWAY
+                7 => {
+                    alive = false;
+                    break;
+                }
+                _ => {}
+            }
+        }
+        let answered: Vec<X> = want
+            .iter()
+            .filter(|sid| ended.contains(sid) && status.contains_key(sid))
+            .map(|sid| X::L(vec![X::n(*sid), X::n(status[sid])]))
+            .collect();
+        X::L(vec![X::L(answered), X::bool(alive)])
+    });
+    cleanup(&b);
+    out
+}
+fn rst(x: &X) -> X {
+    // an outcome in which the connection did not survive counts only if a second run (fresh host, fresh connection) agrees
+    let a = rst_once(x);
+    let mut ta = String::new();
+    a.write(&mut ta);
+    if ta.starts_with("(L (N 9") || ta.ends_with("(N 1))") {
+        return a;
+    }
+    std::thread::sleep(Duration::from_millis(40));
+    let b2 = rst_once(x);
+    let mut tb = String::new();
+    b2.write(&mut tb);
+    if ta == tb || tb.starts_with("(L (N 9") {
+        b2
+    } else {
+        fail(0, "open: the outcome of this burst is not stable".into())
+    }
+}
+
 pub fn dispatch(comp: &str, x: &X) -> Option<X> {
     Some(match comp {
         "proto.l4" => l4(x),
@@ -1525,6 +1756,7 @@ pub fn dispatch(comp: &str, x: &X) -> Option<X> {
         "proto.body" => body(x),
         "proto.sbody" => sbody(x),
         "proto.head" => head(x),
+        "proto.rst" => rst(x),
         "proto.alone" => alone(x, true),
         "proto.alone1" => alone(x, false),
         _ => return None,
